@@ -1320,6 +1320,7 @@ func init() {
 		}
 		// ---- typed effect programs: the order of accept / mark / defer / request / return, run by Tie.lean's interpreter
 		e.printf("%s", c01TokDecl)
+		c01Prog(s, e, gb, "googleBreaker.accept", "progAccept", -1)
 		c01Prog(s, e, gb, "googleBreaker.doReq", "progDoReq", -1)
 		c01Prog(s, e, gb, "googleBreaker.allow", "progAllow", -1)
 		c01Prog(s, e, rh, "BreakerHandler", "progRestHandler", 2)
